@@ -1,6 +1,7 @@
 import Ufw.Props.C05
 import Ufw.Tie.RegTable
 #print axioms Ufw.Props.C05.set_refused_unchanged
+#print axioms Ufw.Props.C05.set_other_get_pair
 #print axioms Ufw.Props.C05.set_other_get
 #print axioms Ufw.Props.C05.set_preserves_sat
 #print axioms Ufw.Props.C05.set_keeps_layout
